@@ -32,7 +32,7 @@ func newVC(P *Program, fn *ssa.Function, spec *FuncSpec) *VC {
 		declared: map[string]bool{}, vals: map[ssa.Value]Term{}, tuples: map[ssa.Value][]Term{},
 		stateSort: map[string]string{}, written: map[*ssa.BasicBlock]map[string]map[string]bool{},
 		lets: map[string]Term{}, usedExterns: map[string]bool{}, usedSpecs: map[string]bool{},
-		funDecls: map[string]bool{}, recInfo: map[string]*recInfo{}, allocBlock: map[string]*ssa.BasicBlock{}, globalPkg: map[string]string{}, ssaByName: map[string]ssa.Value{}}
+		funDecls: map[string]bool{}, recInfo: map[string]*recInfo{}, allocBlock: map[string]*ssa.BasicBlock{}, globalPkg: map[string]string{}, ssaByName: map[string]ssa.Value{}, renamed: map[string]string{}}
 	return vc
 }
 
